@@ -51,8 +51,45 @@ type lpath struct {
 }
 
 type penum struct {
-	isCtor bool   // a constructor whose last result is an `error`
-	bad    string // why the function is not understood ("" = fine)
+	isCtor bool      // a constructor whose last result is an `error`
+	bad    string    // why the function is not understood ("" = fine)
+	file   *ast.File // for one level of same-file helpers
+	depth  int
+}
+
+// helperEvents: the lock events of a same-file function / method that is called here, when its body is straight-line
+// as far as the lock is concerned (one level only).
+func (p *penum) helperEvents(c *ast.CallExpr) []string {
+	if p.file == nil || p.depth > 0 {
+		return nil
+	}
+	name := ""
+	switch fn := c.Fun.(type) {
+	case *ast.Ident:
+		name = fn.Name
+	case *ast.SelectorExpr:
+		name = fn.Sel.Name
+	}
+	if name == "" || lockEv(name) != "" {
+		return nil
+	}
+	for _, d := range p.file.Decls {
+		fd, ok := d.(*ast.FuncDecl)
+		if !ok || fd.Name.Name != name || fd.Body == nil {
+			continue
+		}
+		if l, _ := hasLockOrReturn(fd.Body); !l {
+			return nil
+		}
+		q := &penum{file: p.file, depth: 1}
+		res := q.walk(fd.Body.List, []lpath{{}})
+		if q.bad != "" || len(res) != 1 {
+			p.bad = "a helper with conditional key-share lock calls (" + name + ")"
+			return nil
+		}
+		return res[0].ev
+	}
+	return nil
 }
 
 func lockEv(name string) string {
@@ -98,6 +135,8 @@ func (p *penum) exprEvents(n ast.Node) []string {
 			}
 			if e := lockEv(selName(x)); e != "" {
 				ev = append(ev, e)
+			} else {
+				ev = append(ev, p.helperEvents(x)...)
 			}
 			return false
 		}
@@ -261,7 +300,7 @@ func dedupe(ps []lpath) []lpath {
 }
 
 // funcPaths: (exit, events) of every path through fd. Run: a path that passed a Wait is `full`, one that did not `early`.
-func funcPaths(fd *ast.FuncDecl, role string) (paths [][2]string, why string) {
+func funcPaths(f *ast.File, fd *ast.FuncDecl, role string) (paths [][2]string, why string) {
 	if fd == nil || fd.Body == nil {
 		return nil, "function not found"
 	}
@@ -269,7 +308,7 @@ func funcPaths(fd *ast.FuncDecl, role string) (paths [][2]string, why string) {
 	if r := fd.Type.Results; r != nil && len(r.List) > 0 {
 		returnsError = Src(r.List[len(r.List)-1].Type) == "error"
 	}
-	p := &penum{isCtor: role == "ctor" && returnsError}
+	p := &penum{isCtor: role == "ctor" && returnsError, file: f}
 	res := p.walk(fd.Body.List, []lpath{{}})
 	if p.bad != "" {
 		return nil, p.bad
@@ -348,9 +387,9 @@ func init() {
 		rows := []string{}
 		for _, k := range c10kinds {
 			f := o.ParseFile(k.file)
-			c, why1 := funcPaths(FindFunc(f, "", k.ctor), "ctor")
-			r, why2 := funcPaths(FindFunc(f, k.recv, "Run"), "run")
-			s, why3 := funcPaths(FindFunc(f, k.recv, "Stop"), "stop")
+			c, why1 := funcPaths(f, FindFunc(f, "", k.ctor), "ctor")
+			r, why2 := funcPaths(f, FindFunc(f, k.recv, "Run"), "run")
+			s, why3 := funcPaths(f, FindFunc(f, k.recv, "Stop"), "stop")
 			why := why1
 			if why == "" {
 				why = why2
